@@ -338,6 +338,6 @@ func TestEngine(t *testing.T) {
 		},
 		Real:        []string{"tokens.GenerateLoginToken", "tokens.ValidateToken", "tokens.GetUserFromToken", "gopkg.in/macaroon.v2"},
 		Stub:        []string{"wall clock (testing/synctest fake clock)"},
-		Assumptions: []string{"testing/synctest fake clock semantics (Go 1.26.8)", "second-granularity boundary: only acceptance >=1 s after, or refusal >=1 s before, the lifetime is a violation"},
+		Assumptions: []string{"testing/synctest fake clock semantics (Go 1.26.8)", "second-granularity boundary: acceptance once the lifetime has elapsed is a violation; a refusal counts only >=1 s before the lifetime is over (the expiry caveat may be up to a second early)"},
 	})
 }
